@@ -747,6 +747,26 @@ func (p c12) Run(c core.Case) core.Result {
 			if rng.Chance(1, 5) {
 				pl.cutAt = int64(rng.Intn(int(total) + 1))
 			}
+			if sizes != nil && len(sizes) == 6 && sizes[1] == 256*1024 {
+				// a third of a megabyte in one-byte reads with stalls takes minutes for no library reason:
+				// large envelopes get coarser (still irregular) fragmentation
+				if pl.rp.RandMax > 0 {
+					pl.rp.RandMax = 2048 + 64*pl.rp.RandMax
+				}
+				if pl.rp.Chunk > 0 {
+					pl.rp.Chunk = 997 * pl.rp.Chunk
+				}
+				if pl.rp.TimeoutProb > 5 {
+					pl.rp.TimeoutProb = 5
+				}
+				pl.rp.StallProb = 0
+				if pl.wp.Chunk > 0 {
+					pl.wp.Chunk = 1500 + 100*pl.wp.Chunk
+				}
+				if pl.capacity > 0 {
+					pl.capacity = 4096 + 16*pl.capacity
+				}
+			}
 			pl.nontriv = true
 			var back *c12stream
 			if rng.Chance(1, 4) {
